@@ -41,7 +41,8 @@ class FileProxy:
 def patched_open(file, mode='r', buffering=-1, encoding=None, errors=None, newline=None, closefd=True, opener=None):
     if encoding is None and 'b' not in mode and encname in SIM:
         encoding = SIM[encname]
-    is_target = TARGET[0] is not None and os.fspath(file) == TARGET[0] and ('w' in mode or 'a' in mode or '+' in mode)
+    is_target = (TARGET[0] is not None and isinstance(file, (str, bytes, os.PathLike)) and os.fspath(file) == TARGET[0]
+                 and ('w' in mode or 'a' in mode or '+' in mode))          # a file descriptor is passed through untouched
     try:
         f = _orig_open(file, mode, buffering, encoding, errors, newline, closefd, opener)
     except Exception:
@@ -159,6 +160,9 @@ for k, sc in enumerate(scen):
     elif sc['prior'] == 'other':
         with _orig_open(path, 'wb') as f:
             f.write('<old>é</old>'.encode('utf-8'))
+    elif sc['prior'] == 'longer':          # more bytes than any document written here
+        with _orig_open(path, 'wb') as f:
+            f.write(b'<old>' + b'x' * 60000 + b'</old>')
     elif sc['prior'] == 'isdir':
         os.makedirs(path)
     doc = build(sc['fail'])
